@@ -52,6 +52,29 @@ DIRECTED = [
 ]
 
 
+def endings():
+    """documents cut directly behind a control sequence, its star, an opening
+    bracket or brace: every macro and environment the parser knows with all
+    packages, plus names it does not know"""
+    from yalafi import parameters, parser, tex2txt
+    parms = parameters.Parameters('en')
+    p = parser.Parser(parms, tex2txt.get_packages('*', parms.package_modules))
+    macs = sorted(p.the_macros) + ['\\verb', '\\begin', '\\end', '\\item', '\\unknownmac',
+                                   "\\'", '\\"', '\\def', '\\\\']
+    tails = ['', '*', '[', '{', '*[', '*{', '[a]', '[a]{', '{a}', '{a}{', '*|', '|', ' ',
+             '\n', '%', '{}[', '$', '*$']
+    out = []
+    for m in macs:
+        for t in tails:
+            out.append('A ' + m + t)
+    for e in sorted(p.the_environments) + ['unknownenv', 'verbatim']:
+        for t in ['', '[', '{', '[a]', '{a}', '*', '\n', '[a]{']:
+            out.append('A \\begin{' + e + '}' + t)
+        out.append('A \\begin{' + e + '} x \\end{' + e)
+        out.append('A \\end{' + e + '}')
+    return out
+
+
 def run(tier, seed, build, res):
     rng = random.Random(seed)
     res.rule = ('malformed stream: every prefix / deletion / insertion kind of '
@@ -73,6 +96,17 @@ def run(tier, seed, build, res):
                       '\\def\\x{a\\x}\\x'):
             cases.append((parsecase.T2T(latex, files=dict(universe.FILES), lang='en-GB'),
                           None, 'outside'))
+    ends = endings()
+    if tier == 'quick':
+        # always: the control sequences the scanner itself treats specially
+        core_ = [e for e in ends if any(e.startswith('A ' + m) for m in (
+            '\\verb', '\\begin', '\\end', '\\item', "\\'", '\\"', '\\def', '\\\\', '\\unknownmac'))
+            and '\\begin{' not in e and '\\end{' not in e]
+        rest = [e for e in ends if e not in set(core_)]
+        ends = core_ + rng.sample(rest, 500)
+    for latex in ends:
+        cases.append((parsecase.T2T(latex, files=dict(universe.FILES), lang='en-GB',
+                                    multi=rng.random() < 0.3), None, 'ending'))
     for j in core.load_corpus('C07'):
         cases.append((parsecase.T2T.from_json(j), None, 'corpus'))
     for i in range(0, len(cases), 2000):
